@@ -28,7 +28,7 @@ try:
     for pid in pids:
         r = subprocess.run(['/venv/bin/python', '-B', '-m', 'mlstatic.cli', pid], cwd='/verif', env=env, capture_output=True, text=True)
         lines = [l for l in r.stdout.splitlines() if l.startswith(('REFUTED', 'INCONCLUSIVE', 'ANALYSIS', 'KNOWN', 'Traceback'))]
-        print('%s exit=%d %s' % (pid, r.returncode, ' | '.join(l[:230] for l in lines[:4])))
+        print('%s exit=%d %s' % (pid, r.returncode, ' | '.join(l[:260] for l in lines[:2])))
         if r.returncode == 2 and not lines:
             print(r.stdout[-600:], r.stderr[-1500:])
 finally:
